@@ -82,6 +82,7 @@ def main() -> int:
     ap.add_argument("--jobs", type=int, default=min(N_LANES, os.cpu_count() or 1))
     ap.add_argument("--keep-work", action="store_true")
     ap.add_argument("--no-evidence", action="store_true")
+    ap.add_argument("--max-report", type=int, default=None)
     a = ap.parse_args()
     prop = a.prop.upper()
     seed = int(os.environ.get("VERIF_SEED", "0") or 0)
@@ -90,6 +91,8 @@ def main() -> int:
     tier = dict(mod.TIERS[a.tier])
     if a.runs is not None:
         tier["runs"] = a.runs
+    if a.max_report is not None:
+        tier["max_report"] = a.max_report
     compile_s = rebuild()
     work = os.path.join(HERE, ".work", f"{prop}-{a.tier}-{os.getpid()}")
     os.makedirs(work, exist_ok=True)
